@@ -441,6 +441,15 @@ var subCLI = ev.Register("cli-overrides",
 		return nil
 	})
 
+func seenPath(fs []Flag, path string) (Flag, bool) {
+	for _, f := range fs {
+		if f.Path == path {
+			return f, true
+		}
+	}
+	return Flag{}, false
+}
+
 func TestCLIOverrides(t *testing.T) {
 	subCLI.CheckSalt(t, 5, ev.N(120, 4000), func(t *rapid.T) CLICase {
 		var c CLICase
@@ -458,6 +467,14 @@ func TestCLIOverrides(t *testing.T) {
 			if rapid.Bool().Draw(t, "hit") {
 				f := c.Flags[rapid.IntRange(0, len(c.Flags)-1).Draw(t, "which")]
 				cfgkit.Set(d, f.Path, cfgkit.Valid[f.Path](t))
+			}
+			// an update that is refused as a whole (one unworkable setting among valid ones, refused only after the
+			// valid ones were taken in) must leave the overrides standing as well
+			if rapid.IntRange(0, 2).Draw(t, "poison") == 0 {
+				bad := rapid.SampledFrom([][2]any{{"cache.lock_shards", 0}, {"cache.lock_shards", -3}, {"cache.memory.memory_budget_percent", 101}, {"cache.max_cache_size", "-1B"}, {"proxy.listen", ""}, {"cache.cleanup_interval", "0s"}}).Draw(t, "bad")
+				if _, isFlag := seenPath(c.Flags, bad[0].(string)); !isFlag {
+					cfgkit.Set(d, bad[0].(string), bad[1])
+				}
 			}
 			if len(d) > 0 {
 				c.Updates = append(c.Updates, d)
